@@ -1,6 +1,7 @@
 package main
 
 import (
+	"fmt"
 	"context"
 	"encoding/json"
 	"regexp"
@@ -82,6 +83,7 @@ func (m *MemStore) SelectLogs(_ context.Context, start, end otelstorage.Timestam
 		}
 		return recs[i].TS[1] < recs[j].TS[1]
 	})
+	shared := map[string]pcommon.Map{}
 next:
 	for _, r := range recs {
 		ts := otelstorage.Timestamp(uint64(r.TS[0])*1e9 + uint64(r.TS[1]))
@@ -123,9 +125,16 @@ next:
 				continue next
 			}
 		}
-		attrs := pcommon.NewMap()
-		for _, kv := range r.Attrs {
-			attrs.PutStr(S(kv[0]), S(kv[1]))
+		// records with the same attributes share ONE map, as the Docker storage shares a container's resource
+		// attributes between all of its records: a stage that writes through a label value corrupts the next record
+		key := fmt.Sprint(r.Attrs)
+		attrs, ok := shared[key]
+		if !ok {
+			attrs = pcommon.NewMap()
+			for _, kv := range r.Attrs {
+				attrs.PutStr(S(kv[0]), S(kv[1]))
+			}
+			shared[key] = attrs
 		}
 		out = append(out, logstorage.Record{Timestamp: ts, ObservedTimestamp: ts, Body: line, Attrs: otelstorage.Attrs(attrs)})
 		ids = append(ids, r.ID)
